@@ -355,7 +355,22 @@ class Gen:
         name = self.fresh() if (not fs or r.chance(1, 2)) else r.choice(fs)         # a fresh variable, or the name of a function
         read = "(try (block (print (id %s))) (catch %s (block (print (int -1)))))" % (name, self.fresh())
         val = r.choice([100, 7, 42])
-        form = r.below(6)
+        form = r.below(8)
+        if form >= 6:
+            # direct shadowing: an inner block declares the NAME of a variable of the enclosing block (at the same slot of its scope);
+            # reads and writes in the inner block, evaluated again and again (function called several times / loop), must reach the inner one
+            self.note("hint-shadow")
+            a, acc, k = self.fresh(), self.fresh(), self.fresh()
+            inner = "(block (decl %s (int %d)) (print (id %s)) (eq += (id %s) (int 1)) (eq += (id %s) (id %s)))" % (a, val, a, a, acc, a)
+            if form == 6:
+                f = "f%d" % self.next_fn
+                self.next_fn += 1
+                self.funs[f] = 0
+                body = "(block (decl %s (int 1)) (decl %s (int 0)) %s (print (id %s)) (bin + (id %s) (id %s)))" % (a, acc, inner, a, a, acc)
+                calls = " ".join("(print (call (fid %s)))" % f for _ in range(r.range(2, 4)))
+                return "(block (noop)) (def %s () %s) %s" % (f, body, calls)
+            return ("(block (decl %s (int 1)) (decl %s (int 0)) (decl %s (int 0)) (while (bin < (id %s) (int 3)) (block (pre inc (id %s)) %s)) (print (id %s)) (print (id %s)))"
+                    % (a, acc, k, k, k, inner, a, acc))
         if form >= 4:
             # a declaration made by eval() in front of ordinary declarations: the slots of the later variables shift between calls
             self.note("hint-slot-shift")
